@@ -11,6 +11,8 @@
 //!   rten <rel|ovf> inline <ty> <dims|-> n=<n>
 //!   rten <rel|ovf> stored <ty> <dims|-> tdo=<n|-> off=<n> slen=<n>
 //!   hdr  <rel|ovf> <version> <model_offset> <model_len> <tensor_data_offset> <file_len>
+//!   nest <subgraph|raw> <depth>      (ONNX file with <depth> levels of embedded messages;
+//!                                     answer `err:parse` | `past-parse`, C38's nesting limit)
 //! answers: `ok <dims|-> <len>` | `err:<class>` | `panic` (hdr: `ok` | `err:header` | `panic`).
 //! Lines starting with `#` (file mutations, random bytes, load-time work probes) are not
 //! compared; for them only the property oracle applies: no panic / crash / hang / runaway
@@ -107,6 +109,8 @@ enum Answer {
     Header,
     /// not compared: outcome class only
     Class,
+    /// `err:parse` if the loader reports a parse error, else `past-parse`
+    Parse,
 }
 
 struct Case {
@@ -1160,6 +1164,103 @@ fn case_probe(_rng: &mut Rng, k: usize) -> Case {
     }
 }
 
+/// ONNX files whose embedded messages nest `depth` levels below the top-level `ModelProto`,
+/// following the recursive part of the schema: ModelProto.graph(7) -> GraphProto.node(1) ->
+/// NodeProto.attribute(5) -> AttributeProto.g(6) -> GraphProto.node(1) -> ...
+/// `subgraph`: every node is a well-formed `If`-style node (op_type, name, attribute name and
+/// type GRAPH); `raw`: nothing but the nested length-delimited headers; `unknown`: the same
+/// headers with a field number the decoder skips (no recursion expected).
+/// Built in linear time (sizes inside-out, bytes outside-in): depth 200000 is ~1 MB.
+fn nested_onnx(kind: &str, depth: usize) -> Vec<u8> {
+    // message type at level k (1-based): 1 = GraphProto (via ModelProto.graph), then node,
+    // attribute, g, node, ...
+    let field_no = |k: usize| -> u64 {
+        if kind == "unknown" {
+            return 15;
+        }
+        if k == 1 {
+            7
+        } else {
+            [1u64, 5, 6][(k - 2) % 3]
+        }
+    };
+    // extra (sibling) fields of the message AT level k, emitted after its child
+    let extras = |k: usize| -> Vec<u8> {
+        let mut e = Vec::new();
+        if kind != "subgraph" || k == 0 {
+            return e;
+        }
+        match if k == 1 { 2 } else { (k - 2) % 3 } {
+            0 => {
+                // NodeProto
+                f_str(&mut e, 3, "n");
+                f_str(&mut e, 4, "If");
+            }
+            1 => {
+                // AttributeProto
+                f_str(&mut e, 1, "then_branch");
+                f_i64(&mut e, 20, 5);
+            }
+            _ => {
+                // GraphProto
+                f_str(&mut e, 2, "g");
+            }
+        }
+        e
+    };
+    let varint_len = |mut v: u64| -> usize {
+        let mut n = 1;
+        while v >= 0x80 {
+            v >>= 7;
+            n += 1;
+        }
+        n
+    };
+    // size[k] = number of content bytes of the message at level k
+    let mut size = vec![0usize; depth + 1];
+    if depth > 0 {
+        size[depth] = extras(depth).len();
+        for k in (1..depth).rev() {
+            let child = size[k + 1];
+            size[k] = 1 + varint_len(child as u64) + child + extras(k).len();
+        }
+    }
+    let mut o = Vec::new();
+    f_i64(&mut o, 1, 8); // ir_version
+    for k in 1..=depth {
+        varint(&mut o, field_no(k) << 3 | 2);
+        varint(&mut o, size[k] as u64);
+    }
+    for k in (1..=depth).rev() {
+        o.extend_from_slice(&extras(k));
+    }
+    let mut os = Vec::new();
+    f_str(&mut os, 1, "");
+    f_i64(&mut os, 2, 21);
+    f_bytes(&mut o, 8, &os);
+    o
+}
+
+const NEST_DEPTHS: [usize; 8] = [1, 50, 99, 100, 101, 300, 3000, 200000];
+const NEST_DEPTHS_MORE: [usize; 10] = [2, 3, 4, 97, 98, 102, 103, 1000, 20000, 60000];
+
+fn case_nest(_rng: &mut Rng, k: usize) -> Case {
+    let kind = ["subgraph", "raw", "unknown"][k % 3];
+    let i = k / 3;
+    let depth = if i < NEST_DEPTHS.len() { NEST_DEPTHS[i] } else { NEST_DEPTHS_MORE[(i - NEST_DEPTHS.len()) % NEST_DEPTHS_MORE.len()] };
+    let compared = kind != "unknown";
+    Case {
+        req: format!("{}nest {kind} {depth}", if compared { "" } else { "# " }),
+        fmt: Fmt::Onnx,
+        bytes: nested_onnx(kind, depth),
+        ext: vec![],
+        answer: if compared { Answer::Parse } else { Answer::Class },
+        buckets: vec![format!("nest:{kind}"), format!("nest:depth:{}", if depth <= 100 { "<=100" } else if depth <= 3000 { "101..3000" } else { ">3000" })],
+        nontrivial: true,
+        via_file: true,
+    }
+}
+
 // ---- plan ----
 
 #[derive(Clone, Copy)]
@@ -1169,6 +1270,7 @@ enum Cat {
     RtenStored,
     Header,
     Fuzz,
+    Nest,
     Probe,
 }
 
@@ -1180,6 +1282,7 @@ fn plan(thorough: bool) -> Vec<(Cat, usize)> {
         (Cat::RtenStored, 6000 * m),
         (Cat::Header, 1500 * m),
         (Cat::Fuzz, 12000 * m),
+        (Cat::Nest, if thorough { 3 * 18 } else { 3 * 8 }),
         (Cat::Probe, if thorough { 4 } else { 3 }),
     ]
 }
@@ -1199,6 +1302,7 @@ fn gen_case(seed: u64, thorough: bool, idx: usize) -> Case {
                 Cat::RtenStored => case_rten_stored(&mut rng, k),
                 Cat::Header => case_header(&mut rng, k),
                 Cat::Fuzz => case_fuzz(&mut rng, k),
+                Cat::Nest => case_nest(&mut rng, k),
                 Cat::Probe => case_probe(&mut rng, k),
             };
         }
@@ -1385,6 +1489,9 @@ fn run_case(case: &Case, idx: usize, tmp: &str) -> Res {
         Answer::Class => {
             extra.push(format!("fuzz:out:{}", if class == "err" { ans.as_str() } else { class }));
             ans = class.to_string();
+        }
+        Answer::Parse => {
+            ans = if class == "panic" { "panic".into() } else if ans == "err:parse" { ans } else { "past-parse".into() };
         }
         Answer::Constant => {}
     }
